@@ -488,11 +488,15 @@ class OptCheck(Check):
     def nontrivial(self, case, mobs, iobs):
         # at least one token and a non-default outcome: an error, or a success that reports something given
         w = case.split(" ")
+        if w[0] == "ctor":
+            return w[1] != "-"
         if all(x == "." for x in w[3:]):
             return False
         return True
 
     def signature(self, case, mobs, iobs):
+        if case.startswith("ctor "):
+            return ("ctor", iobs, min(len(case), 12))
         if case.startswith("steps "):
             return ("steps", tuple(x[0] for x in case.split(" ")[3:8]), tuple(p.split(" ")[0] for p in iobs.split(" | ")[:3]))
         parts = iobs.split(" | ")
@@ -508,6 +512,11 @@ class OptCheck(Check):
         return (tuple(sig), d[0], d[1], min(len(w[3].split(",")), 5))
 
     def shrink(self, case):
+        if case.startswith("ctor "):
+            h = case.split(" ")[1]
+            for j in range(0, len(h), 2):
+                yield "ctor " + ((h[:j] + h[j + 2:]) or "-")
+            return
         if case.startswith("steps "):
             w = case.split(" ")
             for i in range(3, len(w)):
@@ -543,7 +552,7 @@ class OptCheck(Check):
 
     def known_match(self, matcher, case, mobs, iobs):
         if matcher == "no_prefix_clash":
-            if case.startswith("steps "):
+            if case.startswith(("steps ", "ctor ")):
                 return False
             kind, dw, ew, argvs = parse_case(case)
             f = dw.split(";")
